@@ -23,6 +23,12 @@ func pbServCtrlSerialize(ctrl *MsgServerCtrl) *pbx.ServerMsg_Ctrl {
 			for key, val := range in {
 				params[key] = interfaceToBytes(val)
 			}
+		case map[string]int:
+			// E.g. the delete transaction ID in the reply to {del what=msg}.
+			params = make(map[string][]byte, len(in))
+			for key, val := range in {
+				params[key] = interfaceToBytes(val)
+			}
 		}
 	}
 
